@@ -101,8 +101,11 @@ func init() {
 	props = append(props, &propSpec{ID: "C11", Level: "exploration", Clauses: []string{"C11."},
 		Scens:  []scenSpec{{Name: "ac", Weight: 1}},
 		QuickS: 40, ThorS: 600, Rule: ruleCommon})
-	props = append(props, &propSpec{ID: "C12", Level: "exploration", Clauses: []string{"C12.", "C14.panic", "C03.", "C04."},
-		Scens:  []scenSpec{{Name: "backend", Weight: 2}, {Name: "backend2", Weight: 1, Batch: 15}},
+	// "... and leaks nothing": descriptor / goroutine leaks after backend
+	// operations are C12's too; commits of fetched entries that the index
+	// refuses need a tight cache with concurrent reservations (conc)
+	props = append(props, &propSpec{ID: "C12", Level: "exploration", Clauses: []string{"C12.", "C14.panic", "C14.fds", "C14.goroutines", "C03.", "C04."},
+		Scens:  []scenSpec{{Name: "backend", Weight: 3}, {Name: "backend2", Weight: 1, Batch: 15}, {Name: "conc", Opt: map[string]string{"tight": "1", "backend": "1"}, Weight: 1}},
 		QuickS: 50, ThorS: 900, Rule: ruleCommon})
 	props = append(props, &propSpec{ID: "C09", Level: "exploration", Clauses: []string{"C09.", "C03.", "C04."},
 		Scens:  []scenSpec{{Name: "restartdir", Weight: 1, Batch: 20}},
